@@ -38,6 +38,7 @@ import (
 	"github.com/alicebob/miniredis/v2"
 	"github.com/alicebob/miniredis/v2/server"
 	"github.com/anishathalye/porcupine"
+	red "github.com/redis/go-redis/v9"
 	"github.com/zeromicro/go-zero/core/limit"
 	"github.com/zeromicro/go-zero/core/logx"
 	"github.com/zeromicro/go-zero/core/stores/redis"
@@ -141,10 +142,45 @@ type world struct {
 	evalsExec atomic.Int64 // top-level EVAL/EVALSHA handed to miniredis for execution
 	evalsRej  atomic.Int64 // top-level EVAL/EVALSHA answered with the injected error
 	pongs     atomic.Int64 // PINGs answered by miniredis
+	shaSeen   atomic.Int64 // top-level EVALSHA commands received (one per call unless the driver re-sends)
+	envErrs   atomic.Int64 // script commands the driver gave up on with a network-level error (not a Redis reply)
 	hookDown  atomic.Bool
 	netDown   bool
 	keySeq    int
 }
+
+// drvHook sits innermost in the redis client's hook chain and sees the driver's
+// final verdict on every command. A script command that ends with a
+// network-level error (timeout, reset, refused - anything that is not a reply
+// of the server) while the harness injects no fault is trouble of the
+// environment (this machine is heavily loaded), never behaviour of a limiter.
+type drvHook struct{ w *world }
+
+func (h drvHook) DialHook(next red.DialHook) red.DialHook { return next }
+
+func (h drvHook) ProcessHook(next red.ProcessHook) red.ProcessHook {
+	return func(ctx context.Context, cmd red.Cmder) error {
+		err := next(ctx, cmd)
+		if err != nil && (cmd.Name() == "evalsha" || cmd.Name() == "eval") {
+			if _, isReply := err.(red.Error); !isReply && !errors.Is(err, context.Canceled) {
+				h.w.envErrs.Add(1)
+			}
+		}
+		return err
+	}
+}
+
+func (h drvHook) ProcessPipelineHook(next red.ProcessPipelineHook) red.ProcessPipelineHook {
+	return next
+}
+
+// quiet reports whether no script command reached the store since mark was
+// taken and the driver reported no network-level error. A command re-sent by the
+// driver after a late reply, or a late command of an abandoned connection, may
+// execute between two harness calls; the store then changes behind the model's
+// back, which is the driver's at-least-once delivery, not the limiter's
+// behaviour.
+func (w *world) quiet(mark int64) bool { return w.shaSeen.Load() == mark }
 
 func newWorld(t *testing.T) *world {
 	mr, err := miniredis.Run()
@@ -158,6 +194,9 @@ func newWorld(t *testing.T) *world {
 	mr.Server().SetPreHook(func(c *server.Peer, cmd string, args ...string) bool {
 		switch cmd {
 		case "EVAL", "EVALSHA":
+			if cmd == "EVALSHA" {
+				w.shaSeen.Add(1)
+			}
 			if w.hookDown.Load() {
 				w.evalsRej.Add(1)
 				c.WriteError(injectedErr)
@@ -178,8 +217,8 @@ func newWorld(t *testing.T) *world {
 		t.Fatalf("proxy: %v", err)
 	}
 	w.px = px
-	w.direct = redis.New(mr.Addr())
-	w.viaPx = redis.New(px.addr())
+	w.direct = redis.New(mr.Addr(), redis.WithHook(drvHook{w}))
+	w.viaPx = redis.New(px.addr(), redis.WithHook(drvHook{w}))
 	w.vc = kit.InstallVClock()
 	return w
 }
@@ -295,6 +334,7 @@ type periodCase struct {
 	abort   bool
 	crossed int64
 	sawOver bool
+	sha     int64
 	nontriv bool
 }
 
@@ -422,8 +462,21 @@ func (p *periodCase) takeSeq(k *perKey, cancelled bool) {
 			return
 		}
 	}
+	if !p.w.quiet(p.sha) {
+		p.c.Inconclusive("a script command reached the store between two harness calls (late or re-sent command)")
+		p.abort = true
+		return
+	}
+	shaBefore := p.w.shaSeen.Load()
 	code, err := p.lim.TakeCtx(ctx, k.name)
 	p.c.Obs("period_takes", 1)
+	p.sha = p.w.shaSeen.Load()
+	if p.sha-shaBefore > 1 {
+		p.logf("take %s -> %s err=%v (script executed more than once)", k.name, cname(code), err)
+		p.c.Inconclusive("the redis driver executed the script more than once for a single call (retry)")
+		p.abort = true
+		return
+	}
 	tag := ""
 	if cancelled {
 		tag = " (cancelled ctx)"
@@ -543,6 +596,7 @@ func newPeriodCase(c *kit.Case, w *world, netOutages bool) *periodCase {
 		n := fmt.Sprintf("k%d", i)
 		p.keys = append(p.keys, &perKey{name: n, full: p.prefix + n})
 	}
+	p.sha = w.shaSeen.Load()
 	return p
 }
 
@@ -690,6 +744,12 @@ func runPeriodConc(c *kit.Case, w *world) {
 			}
 		}
 		spin := r.Intn(3000)
+		if !w.quiet(p.sha) {
+			c.Inconclusive("a script command reached the store between two harness calls (late or re-sent command)")
+			p.abort = true
+			break
+		}
+		shaBefore := w.shaSeen.Load()
 		res := make([][]takeRes, G)
 		start := make(chan struct{})
 		var wg sync.WaitGroup
@@ -742,6 +802,12 @@ func runPeriodConc(c *kit.Case, w *world) {
 			return
 		}
 		c.Obs("period_bursts", 1)
+		p.sha = w.shaSeen.Load()
+		if mode == "none" && w.shaSeen.Load()-shaBefore > int64(total) {
+			c.Inconclusive("the redis driver executed the script more often than there were calls in a burst (retry)")
+			p.abort = true
+			break
+		}
 		if mode != "none" {
 			w.vc.Advance(breakerWindow)
 			if !w.heal(p.st) {
@@ -988,6 +1054,7 @@ type tokCase struct {
 	nontriv  bool
 	hadOut   bool
 	pollN    int
+	sha      int64 // shaSeen at the end of the previous call
 	storeIdx []int
 	localIdx [][]int
 }
@@ -1104,13 +1171,35 @@ func (t *tokCase) checkStore(idx int) {
 
 // call performs one sequential AllowN and classifies it.
 func (t *tokCase) call(inst, n int, phase string) (storeServed bool) {
-	before := t.w.evalsExec.Load()
+	if !t.w.quiet(t.sha) {
+		t.c.Inconclusive("a script command reached the store between two harness calls (late or re-sent command)")
+		t.abort = true
+		return false
+	}
+	before, shaBefore, envBefore := t.w.evalsExec.Load(), t.w.shaSeen.Load(), t.w.envErrs.Load()
 	rec := tokRec{inst: inst, now: t.now, n: n, phase: phase}
 	rec.call = kit.Stamp()
 	rec.granted = t.insts[inst].AllowN(t.now, n)
 	rec.ret = kit.Stamp()
 	delta := t.w.evalsExec.Load() - before
+	t.sha = t.w.shaSeen.Load()
 	t.c.Obs("token_calls", 1)
+	if t.outage == "" && t.w.envErrs.Load() != envBefore {
+		rec.class = "local"
+		t.recs = append(t.recs, rec)
+		t.c.Inconclusive("the redis driver reported a network-level error although the harness injected no fault")
+		t.abort = true
+		return false
+	}
+	if t.w.shaSeen.Load()-shaBefore > 1 {
+		// the redis driver re-sent the command after a late or lost reply: the
+		// script ran more than once for one call, which no model of the limiter covers
+		rec.class = "store"
+		t.recs = append(t.recs, rec)
+		t.c.Inconclusive("the redis driver executed the script more than once for a single call (retry)")
+		t.abort = true
+		return false
+	}
 	switch {
 	case t.outage != "":
 		rec.class = "local"
@@ -1293,6 +1382,7 @@ func newTokCase(c *kit.Case, w *world, netOutages bool) *tokCase {
 	t.now = t.t0
 	t.model = bucket{tokens: int64(t.burst), ts: 0}
 	t.pollN = r.Pick(1, 1)
+	t.sha = w.shaSeen.Load()
 	return t
 }
 
@@ -1462,7 +1552,12 @@ func runTokenConc(c *kit.Case, w *world) {
 		res := make([][]tokRec, G)
 		start := make(chan struct{})
 		var wg sync.WaitGroup
-		evBefore := w.evalsExec.Load()
+		if !w.quiet(t.sha) {
+			c.Inconclusive("a script command reached the store between two harness calls (late or re-sent command)")
+			t.abort = true
+			break
+		}
+		evBefore, shaBefore, envBefore := w.evalsExec.Load(), w.shaSeen.Load(), w.envErrs.Load()
 		for g := 0; g < G; g++ {
 			wg.Add(1)
 			go func(g int) {
@@ -1491,6 +1586,7 @@ func runTokenConc(c *kit.Case, w *world) {
 		c.Obs("token_bursts", 1)
 		c.Obs("token_calls", int64(total))
 		evDelta := w.evalsExec.Load() - evBefore
+		t.sha = w.shaSeen.Load()
 		var ops []kitp.Op
 		var all []kit.Event
 		granted := int64(0)
@@ -1507,6 +1603,16 @@ func runTokenConc(c *kit.Case, w *world) {
 		}
 		sortEvents(all)
 		isigs = append(isigs, kit.InterleavingSig(all, func(e kit.Event) string { return "t" }))
+		if w.envErrs.Load() != envBefore {
+			c.Inconclusive("the redis driver reported a network-level error in a fault-free burst")
+			t.abort = true
+			break
+		}
+		if w.shaSeen.Load()-shaBefore > int64(total) {
+			c.Inconclusive("the redis driver executed the script more often than there were calls in a burst (retry)")
+			t.abort = true
+			break
+		}
 		if evDelta < int64(total) {
 			// every instance was in sync with a store that stayed reachable: the joint
 			// bucket applies to the whole burst whatever the instances did internally
